@@ -668,6 +668,11 @@ func (x *c07Run) runStream(sc *c07Scenario, m *material) {
 				continue
 			}
 			f := strings.Fields(l)
+			if len(f) < 2 {
+				// the word alone starts no record: a line like any other
+				// that no field parser takes
+				continue
+			}
 			d := -1
 			for i := 2; i < len(f); i++ {
 				if f[i] == "bp" || f[i] == "aa" {
